@@ -71,6 +71,10 @@ def literal_forms():
             "$[?(@.a && @.b) == false]", "$[?true == (@.a || @.b)]", "$[?(@.a == 1) == true]", "$[?(@.a < 2) != (@.b < 2)]",
             "$[?(!@.a) == true]", "$[?(@.a || @.b) == (@.a && @.b)]", "$[?((@.a == 1) == true) == false]",
             "$[?1 == (@.a == 1)]", "$[?(@.a in [1]) == true]", "$[?@.a in [1] == true]",
+            # negations as operands of comparisons
+            "$[?(!(@.a == 1)) == true]", "$[?true == (!(@.a < 2))]", "$[?(!(@.a && @.b)) == false]", "$[?(!(!(@.a == 1))) == true]",
+            "$[?(!(@.a == 1)) == (!(@.b == 1))]", "$[?!((!(@.a == 1)) == true)]", "$[?(!@.a) == (@.b == 1)]",
+            "$[?(not (@.a == 1)) == true]", "$[?(!(@.a in [1])) == true]",
             "^[?@.a]", "^[0]", "^", "^..a", "$[?^[0].a == @.a]", "$[?@ == ^[0][0]]", "$", "", "$..", "$..*", "$.a..", "$[?@..a]"]
     return out
 
